@@ -23,7 +23,7 @@ FILES = ["qucumber/nn_states/neural_state.py", "qucumber/utils/gradients_utils.p
 REQUIRED_THEOREMS = ['C06_batch_grad', 'C06_batch_grad_prbm', 'C06_phase_gets_positive_phase_only', 'C06_slices', 'C06_lands_on_parameter',
                      'C06_lands_on_parameter_prbm', 'C06_sgd_step', 'C06_run_unfold',
                      'C06_chain', 'C06_chain_prbm', 'C06_chain_zero', 'C06_chain_run', 'C06_chain_step', 'C06_chain_law', 'C06_sgd_step_dm',
-                     'C06_history', 'C06_run_unfold_cplx', 'C06_run_unfold_dm', 'C06_scheduler_lr', 'C06_steplr', 'C06_fit_trace_length']
+                     'C06_chain_stationary', 'C06_history', 'C06_run_unfold_cplx', 'C06_run_unfold_dm', 'C06_scheduler_lr', 'C06_steplr', 'C06_fit_trace_length']
 RULE = ("case = a real fit() run (state kind, n, h[, a], data with repeats and per-row bases, pos/neg batch sizes equal or different, dividing N or not, "
         "k in 0..3, learning rate, 1-3 epochs, optionally a second fit on the same object with other lr/data; optimizer given as a recording SGD "
         "subclass / omitted (library default, torch.optim.SGD.step patched to record) / with optimizer_args; scheduler = counting stub or a real "
@@ -517,7 +517,7 @@ def gen_cases(ctx, thorough):
     rng = ctx.rng
     out = []
     kinds = ["pos", "cplx", "dm"]
-    reps = 24 if thorough else 3
+    reps = 40 if thorough else 3
 
     def base_case(kind, sched=None, opt_form="class"):
         n = rng.choice([2, 3]) if kind != "dm" else 2
@@ -561,13 +561,12 @@ def gen_cases(ctx, thorough):
         c.update(epochs=rng.choice([3, 4]), k=rng.choice([1, 2]), lr=rng.choice([0.5, 0.05]), regime="steplr")
         c["pos_bs"] = min(c["pos_bs"], max(2, len(c["data"]) // 2))  # at least two batches per epoch
         out.append(c)
-    # chain-start regime: positive and negative batch have the SAME shape but (with bases: necessarily; without: by a different
-    # neg_batch_size... here by construction of the data) different rows, k >= 1, visible biases strong enough that p(h|v) separates rows
+    # chain-start regime: positive and negative batch have the SAME shape but (with bases) different rows; distinct data rows; k >= 1 and k = 0
     for kind in kinds:
-        for _ in range(4 if thorough else 1):
+        for rep_i in range(6 if thorough else 2):
             c = base_case(kind)
             N = len(c["data"])
-            c.update(k=rng.choice([1, 2]), neg_bs=None, pos_bs=rng.choice([2, 3]), epochs=2, second_lr=None, second_data=None, regime="chain-start")
+            c.update(k=(0 if rep_i % 2 else rng.choice([1, 2])), neg_bs=None, pos_bs=rng.choice([2, 3]), epochs=2, second_lr=None, second_data=None, regime="chain-start")
             n = c["n"]
             # distinct rows so that a chain started from the positive batch presents other conditionals than one started from the negative batch
             c["data"] = [[(i >> j) & 1 for j in range(n)] for i in range(N)]
